@@ -189,9 +189,15 @@ def closeLists (mem : PyId → List PyId) : List PyId → List (List PyId) → L
 
 def faceItem (t : List PyId) : EdgeItem := { members := t, idx := none, attr := [] }
 
+/-- `close()` hands the subfaces of a simplex to `add_simplices_from` as frozensets (proposed_fixes/
+    C03-close-hands-faces-over-as-sets.diff): a set in first position is a member set (format 1) whatever its elements
+    are, so the *list* rule of format 1 (a string label next to non-string labels is refused; a tuple of tuple labels is
+    taken for `(members, id)`) does not apply.  That is the format-1 loop without the sniffing rule, which is what the
+    format-3 branch of `addSimplicesFrom` computes for items with an empty attribute dict (`faceItem`): automatic IDs,
+    `attr.update {}`. -/
 def closeItem (h : Hints) (s : HG) (l : List PyId) : HG × Outcome :=
   if l.isEmpty then (s, .err .other)      -- `simplex[-1]` on an empty simplex
-  else guardF s (addSimplicesFrom s .f1 ((subfacesRaw l).map faceItem) none [] h)
+  else guardF s (addSimplicesFrom s .f3 ((subfacesRaw l).map faceItem) none [] h)
 
 def close (s : HG) (orders : List (List PyId)) (h : Hints) : HG × Outcome :=
   bulk (closeItem h) s (closeLists s.mem s.edges orders)
